@@ -35,9 +35,10 @@ THEOREMS = ["JanetModel.Props.C10." + t for t in (
     "JanetModel.Bytecode.verify_sound_generic", "JanetModel.PegVerify.peg_verify_sound_generic",
     "JanetModel.Props.C10.unmarshal_total_inbounds_of_sites_ok", "JanetModel.Props.C10.unmarshal_terminates_of_sites_ok",
     "JanetModel.Props.C10.witness_missing_check_over_reads", "JanetModel.Props.C10.witness_uncounted_env_recursion",
-    "JanetModel.Unmarsh.Bytes.unmarshal_total_inbounds_generic", "JanetModel.Unmarsh.Bytes.unmarshal_terminates_generic"]
+    "JanetModel.Unmarsh.Bytes.unmarshal_total_inbounds_generic", "JanetModel.Unmarsh.Bytes.unmarshal_terminates_generic",
+    "JanetModel.Unmarsh.Bytes.unmarshal_depth_bounded_generic", "JanetModel.Props.C10.unmarshal_depth_bounded_of_sites_ok"]
 GUARD_OBLIGATIONS = ["JanetModel.Bytecode.GuardObligations.vm_value_guards", "JanetModel.Bytecode.GuardObligations.vm_value_guards_nonempty"]
-BYTES_OBLIGATIONS = ["JanetModel.Unmarsh.BytesObligations." + t for t in ("sites_ok", "refs_checked", "depths_ok", "unmarshal_total_inbounds", "unmarshal_terminates", "peg_size_checked", "asm_ok_only_after_verify")] + [
+BYTES_OBLIGATIONS = ["JanetModel.Unmarsh.BytesObligations." + t for t in ("sites_ok", "refs_checked", "depths_ok", "unmarshal_total_inbounds", "unmarshal_terminates", "unmarshal_depth_bounded", "peg_size_checked", "asm_ok_only_after_verify")] + [
     "JanetModel.Unmarsh.PegSize.peg_alloc_covers_writes", "JanetModel.Unmarsh.PegSize.witness_peg_size_wraps"]
 PEG_OBLIGATIONS = ["JanetModel.PegVerify.Obligations." + t for t in ("peg_tables_consistent", "peg_verify_sound")]
 IMAGE_OBLIGATIONS = ["JanetModel.Unmarsh.Obligations." + t for t in ("image_checks_present", "fiber_image_wf", "function_image_wf", "env_untrusted_checked")]
@@ -220,7 +221,7 @@ def gen_inputs(ctx, ig, base, ops, lb, quick, pegrows=None):
     edges = ig.deep_edges(lb, ops, pegrows.ops.get("RULE_CONSTANT") if pegrows is not None else None)
     for e in edges:
         per = max(1, len(e[2]) + len(e[4]))
-        big = [20000, max(30000, min(100000, 1200000 // per))] + ([250000] if not quick else [])
+        big = [20000, max(30000, min(200000, 1600000 // per))] + ([400000] if not quick else [])
         ds = DEEP_DEPTHS + [rng.range(1, 1100) for _ in range(4)] + [rng.range(1100, 6000) for _ in range(2)] + big
         for n in sorted(set(ds)):
             add("deep", "%s*%d" % (e[0], n), ig.deep_image(e, n))
